@@ -718,6 +718,83 @@ Section Cache.
 End Cache.
 
 (* ====================================================================== *)
+(* several callables: a class is never shared between two of them          *)
+(* ====================================================================== *)
+Section PairCache.
+  Context {V : Type}.
+  Variable veqb : V -> V -> bool.
+  Variable F : facts.
+  Variable sigs : nat -> sig V.
+  Implicit Types (st : pstate V).
+
+  (* every cached class was allocated for the callable it is filed under *)
+  Definition pinv st : Prop := forall k r c, In (k, r, c) (fst st) -> nth_error (snd st) c = Some k.
+
+  Lemma pfind_in t k r c : pfind veqb t k r = Some c -> exists k' r', In (k', r', c) t /\ k' = k.
+  Proof.
+    induction t as [|[[k' r'] c'] q IH]; intros H; [discriminate|]. cbn [pfind] in H.
+    destruct (Nat.eqb k k' && req_eqb veqb r r') eqn:E.
+    - injection H as <-. apply andb_true_iff in E as [E _]. apply Nat.eqb_eq in E. exists k', r'. split; [left; reflexivity | auto].
+    - destruct (IH H) as [k2 [r2 [I E2]]]. exists k2, r2. split; [right; exact I | exact E2].
+  Qed.
+
+  Lemma nth_error_keep {A} (l l' : list A) n x : nth_error l n = Some x -> nth_error (l ++ l') n = Some x.
+  Proof. intros H. rewrite nth_error_app1; [exact H|]. apply nth_error_Some. congruence. Qed.
+  Lemma nth_error_fresh {A} (l : list A) x : nth_error (l ++ [x]) (List.length l) = Some x.
+  Proof. rewrite nth_error_app2 by lia. rewrite Nat.sub_diag. reflexivity. Qed.
+
+  Lemma p_request_inv st k r st' o :
+    pinv st -> p_request veqb F sigs st k r = (st', o) ->
+    pinv st' /\ (exists l, snd st' = (snd st ++ l)%list) /\ (forall c, o = Ok c -> nth_error (snd st') c = Some k).
+  Proof.
+    intros I H. unfold p_request in H.
+    destruct (f_cf_cached F && rq_hashable r).
+    - destruct (pfind veqb (fst st) k r) as [c0|] eqn:Ef.
+      + injection H as <- <-. split; [exact I|]. split; [exists []; rewrite app_nil_r; reflexivity|].
+        intros c Hc. injection Hc as <-. destruct (pfind_in _ _ _ _ Ef) as [k' [r' [Hin Ek]]]. subst k'. exact (I _ _ _ Hin).
+      + destruct (setup F _).
+        * injection H as <- <-. cbn [fst snd]. split; [|split].
+          -- intros k2 r2 c2 Hin. apply in_app_or in Hin as [Hin|Hin].
+             ++ apply nth_error_keep. exact (I _ _ _ Hin).
+             ++ destruct Hin as [Hin|[]]. injection Hin as <- <- <-. apply nth_error_fresh.
+          -- eexists; reflexivity.
+          -- intros c Hc. injection Hc as <-. apply nth_error_fresh.
+        * injection H as <- <-. split; [exact I|]. split; [exists []; rewrite app_nil_r; reflexivity | discriminate].
+    - destruct (setup F _).
+      + injection H as <- <-. cbn [fst snd]. split; [|split].
+        * intros k2 r2 c2 Hin. apply nth_error_keep. exact (I _ _ _ Hin).
+        * eexists; reflexivity.
+        * intros c Hc. injection Hc as <-. apply nth_error_fresh.
+      + injection H as <- <-. split; [exact I|]. split; [exists []; rewrite app_nil_r; reflexivity | discriminate].
+  Qed.
+
+  Lemma p_session_inv steps : forall st st' outs,
+    pinv st -> p_session veqb F sigs st steps = (st', outs) ->
+    pinv st' /\ (exists l, snd st' = (snd st ++ l)%list)
+    /\ (forall k r c, In ((k, r), Ok c) (combine steps outs) -> nth_error (snd st') c = Some k).
+  Proof.
+    induction steps as [|[k r] q IH]; intros st st' outs I H; cbn [p_session] in H.
+    - injection H as <- <-. split; [exact I|]. split; [exists []; rewrite app_nil_r; reflexivity | intros ? ? ? []].
+    - destruct (p_request veqb F sigs st k r) as [st1 o] eqn:E1. destruct (p_session veqb F sigs st1 q) as [st2 os] eqn:E2.
+      injection H as <- <-. destruct (p_request_inv _ _ _ _ _ I E1) as [I1 [[l1 L1] O1]].
+      destruct (IH _ _ _ I1 E2) as [I2 [[l2 L2] O2]]. split; [exact I2|]. split.
+      + exists (l1 ++ l2)%list. rewrite L2, L1, app_assoc. reflexivity.
+      + intros k2 r2 c Hin. cbn [combine] in Hin. destruct Hin as [Hin|Hin].
+        * injection Hin as <- <- ->. rewrite L2. apply nth_error_keep. apply O1. reflexivity.
+        * exact (O2 _ _ _ Hin).
+  Qed.
+
+  (* whatever the history of requests: a class id returned for callable k is never returned for another callable *)
+  Theorem distinct_callables_distinct_classes steps st' outs k r k' r' c :
+    p_session veqb F sigs ([], []) steps = (st', outs) ->
+    In ((k, r), Ok c) (combine steps outs) -> In ((k', r'), Ok c) (combine steps outs) -> k = k'.
+  Proof.
+    intros H H1 H2. assert (I : pinv ([], [])) by (intros ? ? ? []).
+    destruct (p_session_inv steps _ _ _ I H) as [_ [_ O]]. assert (A := O _ _ _ H1). assert (B := O _ _ _ H2). congruence.
+  Qed.
+End PairCache.
+
+(* ====================================================================== *)
 (* the model's behaviour satisfies the executable spec (Model/FrontSpec.v)  *)
 (* ====================================================================== *)
 Lemma err_eqb_refl_local (e : err) : err_eqb e e = true.
